@@ -51,6 +51,12 @@ def _plain_equal(a, b):
     return type(a) is type(b) and a == b
 
 
+# properties whose own statement contains an "inputs are not modified" clause for these routines: a changed tensor-train argument
+# is reported under that property as well (and always under C06)
+OWN_IMMUT = {'TT.svd': 'C05', 'TT.pinv': 'C05', 'ode.adaptive_step_size': 'C09', 'ode.tdvp1site': 'C11', 'ode.tdvp2site': 'C11', 'ode.tdvp': 'C11',
+             'ode.krylov': 'C11', 'regression.arr': 'C16', 'tdmd.tdmd_exact': 'C17', 'tdmd.tdmd_standard': 'C17'}
+
+
 class ApiImmut(probe.Contract):
     def __init__(self, api, prop='C06'):
         self.api = api
@@ -91,6 +97,8 @@ class ApiImmut(probe.Contract):
                 tags += ['size1mode'] if sg['size1mode'] else []
                 tags += ['raised'] if raised else []
             c.check(self.api, 'argument_unchanged', d is None, tags, {'diff': d, 'shape': s.shape_sig(), 'ranks': s.ranks} if d else None, prop='C06')
+            if self.api in OWN_IMMUT:
+                c.check(self.api, 'input_tensor_trains_unchanged', d is None, tags, {'diff': d, 'shape': s.shape_sig(), 'ranks': s.ranks} if d else None, prop=OWN_IMMUT[self.api])
         for (v, before) in st['arrs']:
             same = v.shape == before.shape and np.array_equal(v, before, equal_nan=True)
             c.check(self.api, 'ndarray_argument_unchanged', same, ['raised'] if raised and not same else [], None, prop='C06')
